@@ -103,6 +103,21 @@ CLAIMED = {
                      "correspondence + box oracle on special values",
         "design_ref": "DESIGN.md section 7 (C05)",
     },
+    "C06": {
+        "text": "Theorems: C06_typed_vs_generic (on any source in any state - arbitrary bytes, faults - whenever the generic read "
+                "of a record succeeds with x, the typed read as S returns exactly S::try_from(x): x if it is an S, otherwise "
+                "MismatchShapeType{requested S, actual type of x}), C06_never_wrong_type, C06_type_identity (Shape::shapetype = "
+                "the type of the concrete Rust type, all 14 kinds), C06_dispatch (a record with code c decodes to the variant "
+                "whose type has code c), C06_try_from, C06_from_tryfrom (concrete -> generic -> concrete is the identity), "
+                "C06_bulk (bulk conversion = all values, or the error of the first foreign one). Tie: exhaustive 13 x 14 "
+                "requested/actual matrix through the real TryFrom/From/HasShapeType/convert_shapes_to_vec_of and through real "
+                "files of every actual type read as every requested type.",
+        "note": COMMON_NOTE + "A concrete Rust value of ESRI type t is modelled as a shape with type_of = t, so From is the "
+                "identity of the model (the wrapping in the enum variant is checked by the harness rendering).",
+        "technique": "Coq proof (typing of reading programs, case analysis over the 14 kinds) + exhaustive differential "
+                     "correspondence over the type matrix",
+        "design_ref": "DESIGN.md section 7 (C06)",
+    },
     "C09": {
         "text": "Theorems over every history of calls {write s, finalize} (any shapes of any types, rejected writes included; any "
                 "length), with or without index destination, ending in drop or finalize-then-drop: C09_finalize_irrelevant (both "
